@@ -39,7 +39,7 @@ JudgeW(e) ==
        /\ Report("VERDICT", "C14_ErrOnly", e,
                  (EncOn(e.r) /\ e.r.vin /\ ~(f.enc # "none" /\ genuine)) => e.reply \in {"none", "err"})
        \* whether a frame whose plaintext was modified still decodes is not determined by the model
-       /\ Report("DRIFT", "accept", e, (x.acc /\ x.msg = "garbled") \/ e.acted = x.acc)
+       /\ Report("DRIFT", "accept", e, x.msg = "garbled" \/ e.acted = x.acc)
        /\ (IF Compatible(e.s, e.r, e.attack) THEN PrintT(<<"STAT2", "C12_compatible", 1, 1>>) ELSE TRUE)
        /\ (IF wrongLabel THEN PrintT(<<"STAT2", "C16_wronglabel", 1, 1>>) ELSE TRUE)
        /\ (IF EncOn(e.r) /\ e.r.vin /\ e.mutated THEN PrintT(<<"STAT2", "C14_tampered", 1, 1>>) ELSE TRUE)
